@@ -201,8 +201,17 @@ func mutateBody(rt *rapid.T, body []byte, family, label string) []byte {
 			} else {
 				b = append(b, rapid.SliceOfN(rapid.Byte(), 1, 4).Draw(rt, l+".tail")...)
 			}
-		case 5: // duplicate the body
-			b = append(b, b...)
+		case 5: // trailing data after a complete value
+			switch rapid.IntRange(0, 3).Draw(rt, l+".trail") {
+			case 0:
+				b = append(b, b...)
+			case 1:
+				b = append(b, '}')
+			case 2:
+				b = append(b, []byte(" garbage")...)
+			default:
+				b = append(b, []byte(`{"x":1}`)...)
+			}
 		case 6: // random bytes
 			b = rapid.SliceOfN(rapid.Byte(), 0, 24).Draw(rt, l+".rand")
 		}
@@ -253,7 +262,10 @@ func drawRogue(rt *rapid.T, resp proto.Message, l string) *RogueResp {
 	case 7:
 		r.Body = rapid.SliceOfN(rapid.Byte(), 0, 40).Draw(rt, l+".rand")
 	}
-	switch rapid.IntRange(0, 9).Draw(rt, l+".frame") {
+	switch rapid.IntRange(0, 10).Draw(rt, l+".frame") {
+	case 10:
+		// a lying upstream: absurd Content-Length (values beyond any allocatable size)
+		r.Headers = append(r.Headers, [2]string{"Content-Length", rapid.SampledFrom([]string{"9223372036854775807", "4611686018427387904", "9223372036854775000"}).Draw(rt, l+".hugelen")})
 	case 0:
 		r.BadLength = rapid.IntRange(1, 10).Draw(rt, l+".badlen") // advertises more than is sent
 	case 1:
@@ -319,6 +331,15 @@ func checkC11Server(k *Kernel, cov *Coverage) *Violation {
 		}
 		if cn.Dispatched > 1 {
 			return &Violation{Class: "double-dispatch", Signature: sig("double-dispatch", ""), Detail: fmt.Sprintf("op %d %s: one connection dispatched %d times", c.Op.ID, c.Op.RPC, cn.Dispatched)}
+		}
+		// any JSON decoder must reject a body that is not exactly one JSON value
+		if mode == "server-garbage" && bodyVerb && c.Op.Raw != nil && !incomplete && fam == "json" && cn.Dispatched > 0 && len(c.Op.Raw.Body) > 0 && !json.Valid(c.Op.Raw.Body) {
+			in := "plain"
+			if rpc != nil {
+				in = annType(rpc.In)
+			}
+			return &Violation{Class: "dispatch-from-undecodable-body", Signature: sig("dispatch-from-undecodable-body", "invalid-json-text|in="+in),
+				Detail: fmt.Sprintf("op %d %s: body %q (content type %q) is not one well-formed JSON value, yet the handler ran with %s", c.Op.ID, c.Op.RPC, truncBytes(c.Op.Raw.Body), ct, seenJSON(c, cn))}
 		}
 		// garbage mode: judge dispatch against an independent decoder
 		if mode == "server-garbage" && bodyVerb && c.Op.Raw != nil && !incomplete && !hasJSONAnnotations(k.W) {
